@@ -466,8 +466,9 @@ impl AsmParser {
                     (-range..range).contains(&val)
                 }
                 Bits::Unsigned(num_bits) => {
-                    let range = 2_u16.pow(num_bits as u32 - 1);
-                    (0..range).contains(&val)
+                    // All `num_bits` bits are available to an unsigned field (widened: 2^16 does not fit in u16)
+                    let range = 2_u32.pow(num_bits as u32);
+                    (0..range).contains(&(val as u32))
                 }
             }
         };
